@@ -450,4 +450,6 @@ def run(chk, ctx):
                 r_ = canon(pi.ret())
                 if re.fullmatch(r"Result::map_err\(i64::from_str_radix\(.*\), closure\(\{closure#0\}\)\)", r_):
                     oks.add("try(%s)" % r_)    # the conversion's own Result returned as it is: Ok(n) is its Ok(n)
+                elif ordrules.ret_shape(pi) != "Err":
+                    oks.add(r_)                 # any other value that may be Ok(..) must be accounted for
         chk.require(bool(oks) and all(re.fullmatch(r"try\(Result::map_err\(i64::from_str_radix\(.*\), closure\(\{closure#0\}\)\)\)", o) for o in oks), "ORG", "ORG:parse_number:value-is-checked-conversion", "Ok(n) only with n = i64::from_str_radix(..)?", "parse_number Ok values: %s" % sorted(oks))
